@@ -15,9 +15,11 @@ EXPLANATION = ("LF engine on cell.cpp: (1) the integrand accumulated by compute_
                "(x1+x2+x3)/3 * area(f) per used face and divides by area_; (4) compute_area sums get_area() over used faces only; (5) get_aabb "
                "keeps running minima/maxima per axis over used nodes, starting at +/-infinity, and returns (min xyz, max xyz) in that order; "
                "(6) get_cell_longest_axis accumulates (p_a - c_a)(p_b - c_b) into cov_ab for the matching axis pair, divides each by the "
-               "number of live nodes and builds a symmetric matrix with matching indices. Not decided: frame/permutation independence as such, "
+               "number of live nodes and builds a symmetric matrix with matching indices; (7) index bookkeeping of the eigenvector matrix: with the "
+               "solver's convention evec[k] = eigenvector of eval[k], the mat33 constructor (rows), transpose() (read from its nine assignments) "
+               "and get_col(k) (read from its returns) compose so that the axis returned when eval[k] dominates is (evec[k][0..2]). Not decided: frame/permutation independence as such, "
                "correctness of the flood-fill orientation repair, eigen-solver accuracy.")
-ASSUMPTIONS = ["loops are not executed: the per-iteration contribution is checked, the accumulation itself (+=) is matched structurally"]
+ASSUMPTIONS = ["gte::SymmetricEigensolver3x3 returns evec[k] as the eigenvector of eval[k] (its documented convention)", "loops are not executed: the per-iteration contribution is checked, the accumulation itself (+=) is matched structurally"]
 
 
 def declare(rep):
@@ -26,6 +28,7 @@ def declare(rep):
     rep.rule("C12.centroid", "compute_centroid: sum over used faces of (x1+x2+x3)/3*area, divided by area_", floor=2)
     rep.rule("C12.area-sum", "compute_area: sum of get_area() over used faces only", floor=1)
     rep.rule("C12.aabb", "get_aabb: running min/max per axis over used nodes from +/-infinity, returned as (min xyz, max xyz)", floor=7)
+    rep.rule("C12.eigen-layout", "the axis returned for eigenvalue k is (evec[k][0], evec[k][1], evec[k][2]): index bookkeeping through the mat33 constructor, transpose and get_col agrees between eigen_decomposition and get_cell_longest_axis", floor=3)
     rep.rule("C12.covariance", "get_cell_longest_axis: cov_ab accumulates (p_a-c_a)(p_b-c_b), normalised by the live node count, symmetric matrix", floor=7)
 
 
@@ -54,6 +57,7 @@ def run(rep, prog, tier):
     area_sum(rep, prog)
     aabb(rep, prog)
     covariance(rep, prog)
+    eigen_layout(rep, prog)
 
 
 def triple(x):
@@ -302,3 +306,125 @@ def covariance(rep, prog):
                 rep.ok("C12.covariance", prog, fn, m, "covariance matrix is symmetric with entry (a,b) = cov_ab")
     if not good:
         rep.violation("C12.covariance", prog, fn, mats[0] if mats else None, "covariance matrix entries misplaced", "the 3x3 matrix handed to the eigen solver is not [[xx,xy,xz],[xy,yy,yz],[xz,yz,zz]]")
+
+
+# ---- eigen layout: a 3x3 index interpreter ---------------------------------------------------------------
+def _row_idx(txt):
+    m = re.match(r"^(?:(\w+)\.)?row_([123])_\[(\d)\]$", txt.replace(" ", "").strip("()"))
+    return (m.group(1), int(m.group(2)) - 1, int(m.group(3))) if m else None
+
+
+def eigen_layout(rep, prog):
+    ed = prog.fn("mat33::eigen_decomposition")
+    # (a) constructor: row_k_ <- k-th parameter
+    for ctor in [f for f in prog.fns("mat33::mat33") if f["key"].count("std::array<double, 3>") == 3]:
+        got = {}
+        for n in walk(ctor["body"]):
+            if n.get("k") in ("BinaryOperator", "CXXOperatorCallExpr") and n.get("op") == "=":
+                l, r = render(n["c"][-2]).replace(" ", ""), render(n["c"][-1]).replace(" ", "")
+                m = re.match(r"^(?:this->)?row_([123])_$", l.strip("()"))
+                m2 = re.search(r"row_([123])\b", r)
+                if m and m2:
+                    got[int(m.group(1))] = int(m2.group(1))
+        pnames = [p_["name"] for p_ in ctor["params"]]
+        if got != {1: 1, 2: 2, 3: 3} or pnames != ["row_1", "row_2", "row_3"]:
+            rep.violation("C12.eigen-layout", prog, ctor, None, "mat33 constructor does not store its k-th argument as row k", "mat33::mat33(row_1,row_2,row_3) must store its arguments as the rows in order; found %s" % got)
+            return
+    # (b) transpose: result(R,C) <- this(X,Y)
+    tr = prog.fn("mat33::transpose")
+    perm = {}
+    for n in walk(tr["body"]):
+        if n.get("k") == "BinaryOperator" and n.get("op") == "=":
+            l, r = _row_idx(render(n["c"][0])), _row_idx(render(n["c"][1]))
+            if l and r and l[0] is not None and r[0] is None:
+                perm[(l[1], l[2])] = (r[1], r[2])
+    if len(perm) != 9:
+        raise AnalysisBroken("mat33::transpose: %d element assignments recognised" % len(perm))
+    if any(perm[(r, c)] != (c, r) for r in range(3) for c in range(3)):
+        rep.violation("C12.eigen-layout", prog, tr, None, "mat33::transpose is not the transpose", "mat33::transpose must set result(r,c) = this(c,r); found %s" % sorted(perm.items()))
+        return
+    rep.ok("C12.eigen-layout", prog, tr, None, "transpose: result(r,c) = this(c,r) for the nine entries; constructor stores argument k as row k")
+    # (c) get_col(k) -> (M[0][k], M[1][k], M[2][k])
+    gc = prog.fn("mat33::get_col")
+    cols = {}
+    for r in walk(gc["body"]):
+        if r.get("k") == "ReturnStmt":
+            args = [x for x in walk(r) if x.get("k") in ("CXXConstructExpr", "CXXTemporaryObjectExpr") and x.get("cls") == "vec3" and len(x.get("c", [])) == 3]
+            if args:
+                tri = [_row_idx(render(a)) for a in args[0]["c"]]
+                if all(tri) and [t[1] for t in tri] == [0, 1, 2] and len({t[2] for t in tri}) == 1:
+                    cols[len(cols)] = tri[0][2]
+    fi = prog.index(gc)
+    # the k-th return is guarded by i == k (if / else-if / else chain in order)
+    if cols != {0: 0, 1: 1, 2: 2}:
+        rep.violation("C12.eigen-layout", prog, gc, None, "get_col(k) does not return column k", "mat33::get_col must return (row_1_[k], row_2_[k], row_3_[k]) for k = 0,1,2 in its three branches; found %s" % cols)
+        return
+    conds = [render(x["cond"]).replace(" ", "").strip("()") for x in walk(gc["body"]) if x.get("k") == "IfStmt"]
+    if conds != ["i==0", "i==1"]:
+        raise AnalysisBroken("mat33::get_col: branch conditions %s" % conds)
+    rep.ok("C12.eigen-layout", prog, gc, None, "get_col(k) = (row_1_[k], row_2_[k], row_3_[k])")
+    # (d) eigen_decomposition: M(r,c) = evec[i][j] after the constructor and the transposes
+    T = None
+    mvar = None
+    vals = None
+    for st in ed["body"]["c"]:
+        for n in walk(st):
+            if n.get("k") == "Var" and n.get("t", "").replace("const ", "") == "mat33" and isinstance(n.get("init"), dict):
+                cells = re.findall(r"eigen_vectors\[(\d)\]\[(\d)\]", render(n["init"]))
+                if len(cells) == 9:
+                    T = {(i // 3, i % 3): (int(a), int(b)) for i, (a, b) in enumerate(cells)}
+                    mvar = n["name"]
+            if n.get("k") == "Var" and n.get("t", "").replace("const ", "") == "vec3" and isinstance(n.get("init"), dict):
+                v = re.findall(r"eigen_values\[(\d)\]", render(n["init"]))
+                if len(v) == 3:
+                    vals = [int(x) for x in v]
+        if T is not None and st.get("k") != "DeclStmt":
+            txt = render(st).replace(" ", "")
+            if txt.startswith("(") and txt.endswith(")"):
+                txt = txt[1:-1]
+            if txt == "%s=%s.transpose()" % (mvar, mvar):
+                T = {(r, c): T[(c, r)] for r in range(3) for c in range(3)}
+            elif mvar in txt and st.get("k") != "ReturnStmt":
+                raise AnalysisBroken("eigen_decomposition: unrecognised statement on %s: %s" % (mvar, txt[:80]))
+    ret = [render(r.get("value") or {}) for r in walk(ed["body"]) if r.get("k") == "ReturnStmt"]
+    if T is None or vals is None or not ret or mvar not in ret[0]:
+        raise AnalysisBroken("eigen_decomposition: matrix / eigenvalue vector construction not recognised")
+    # (e) consumer
+    la = prog.fn("cell::get_cell_longest_axis")
+    uses = []
+    for n in walk(la["body"]):
+        if is_call(n) and n.get("callee") == "mat33::get_col":
+            k = strip(call_args(n)[0]).get("v")
+            uses.append((n, int(k) if k is not None and str(k).isdigit() else None))
+    if len(uses) != 3:
+        raise AnalysisBroken("get_cell_longest_axis: %d get_col calls" % len(uses))
+    fi = prog.index(la)
+    comp = {"dx": 0, "dy": 1, "dz": 2}
+    seen = []
+    for n, k in uses:
+        # dominant component of the guard: the accessor on the left of every '>' of the enclosing if's condition
+        iff = None
+        for p_, slot, ch in fi.ancestors(n):
+            if p_.get("k") == "IfStmt":
+                iff, sl = p_, slot
+                break
+        dom = None
+        if iff is not None and sl == "then":
+            lefts = set(re.findall(r"abs\(eigen_values\.(d[xyz])\(\)\)>", render(iff["cond"]).replace(" ", "").replace("std::", "")))
+            rights = set(re.findall(r">abs\(eigen_values\.(d[xyz])\(\)\)", render(iff["cond"]).replace(" ", "").replace("std::", "")))
+            if len(lefts) == 1 and len(rights) == 2 and not (lefts & rights):
+                dom = comp[next(iter(lefts))]
+        elif iff is not None and sl == "else":
+            rest = [c_ for c_ in range(3) if c_ not in seen]
+            dom = rest[0] if len(rest) == 1 else None
+        if dom is None or k is None:
+            raise AnalysisBroken("get_cell_longest_axis: guard of get_col(%s) not recognised" % k)
+        seen.append(dom)
+        ev_index = vals[dom]
+        vec = [T[(r, k)] for r in range(3)]
+        want = [(ev_index, j) for j in range(3)]
+        if vec == want:
+            rep.ok("C12.eigen-layout", prog, la, n, "largest |eigenvalue| in component %d (= eval[%d]) -> get_col(%d) = (evec[%d][0], evec[%d][1], evec[%d][2])" % (dom, ev_index, k, ev_index, ev_index, ev_index))
+        else:
+            rep.violation("C12.eigen-layout", prog, la, n, "axis for eigenvalue %d is not eigenvector %d" % (ev_index, ev_index),
+                          "get_cell_longest_axis: when eval[%d] dominates, get_col(%d) of the matrix built by eigen_decomposition is (%s), not the eigenvector (evec[%d][0..2]) of that eigenvalue: constructor/transpose/get_col conventions no longer agree, the longest axis does not follow the cell" % (ev_index, k, ", ".join("evec[%d][%d]" % v for v in vec), ev_index))
